@@ -89,12 +89,21 @@ def mac_lines(rng, stats):
         parts = gen.split_data(m, chunk_sizes(rng, len(m), 8))
         out.append("HM %s %s %s" % (v, hx(k), ",".join(hx(p) for p in parts) or "-"))
         out.append("HMO %s %s %s" % (v, hx(k), hx(m)))
+        # the same through <op>_reinit after a prior history on the same object (RE:<seed of the prior history>)
+        out.append("HM %s %s %s RE:%d" % (v, hx(k), ",".join(hx(p) for p in parts) or "-", rng.randrange(1, 1 << 30)))
+        out.append("HMO %s %s %s" % (v, hx(k), hx(m)))
     for v in ("kmac", "kmaca"):
         k, m, cu = rnd_bytes(rng, 16), rnd_bytes(rng, rng.choice([0, 7, 8, 9, 40])), rnd_bytes(rng, rng.choice([0, 5]))
         n = rng.choice([16, 32, 40])
         parts = gen.split_data(m, chunk_sizes(rng, len(m), 8))
         out.append("KM %s %s %s %d %s %s" % (v, hx(k), hx(cu), n, ",".join(hx(p) for p in parts) or "-", ",".join(map(str, chunk_sizes(rng, n, 8)))))
         out.append("KMO %s %s %s %s %d" % (v, hx(k), hx(m), hx(cu), n))
+        out.append("KM %s %s %s %d %s %s RE:%d" % (v, hx(k), hx(cu), rng.choice([n, 0]), ",".join(hx(p) for p in parts) or "-", ",".join(map(str, chunk_sizes(rng, n, 8))), rng.randrange(1, 1 << 30)))
+        out.append("KMO %s %s %s %s %d" % (v, hx(k), hx(m), hx(cu), n))
+    for v in ("kdf", "kdfa"):
+        k, cu, n = rnd_bytes(rng, rng.choice([1, 16, 40])), rnd_bytes(rng, rng.choice([0, 5, 9])), rng.choice([8, 24, 40])
+        out.append("KD %s %s %s %d %s RE:%d" % (v, hx(k), hx(cu), rng.choice([n, 0]), ",".join(map(str, chunk_sizes(rng, n, 8))), rng.randrange(1, 1 << 30)))
+        out.append("KDO %s %s %s %d" % (v, hx(k), hx(cu), n))
     for v in ("hkdf", "hkdfa"):
         key, salt, info = rnd_bytes(rng, 16), rnd_bytes(rng, 8), rnd_bytes(rng, 3)
         n = rng.choice([10, 64, 100])
